@@ -24,6 +24,7 @@ mod cmd_level;
 mod cmd_manifest;
 mod cmd_entjson;
 mod cmd_ffi;
+mod cmd_tpe;
 
 /// Command families.  To add one: create src/cmd_xxx.rs with
 /// `pub fn dispatch(cmd: &str, v: &J) -> Option<Result<J, String>>`, add `mod cmd_xxx;` above
@@ -47,6 +48,7 @@ const FAMILIES: &[fn(&str, &J) -> Option<Result<J, String>>] = &[
     cmd_manifest::dispatch,
     cmd_entjson::dispatch,
     cmd_ffi::dispatch,
+    cmd_tpe::dispatch,
 ];
 
 fn dispatch(cmd: &str, v: &J) -> Result<J, String> {
